@@ -587,6 +587,19 @@ class SVal:
         r.ldtype = self.dtype
         return r
 
+    # the methods of a NumPy scalar that reduce / convert it to itself
+    def sum(self, *a, **k): return self
+    def max(self, *a, **k): return self
+    def min(self, *a, **k): return self
+    def mean(self, *a, **k): return self
+    def prod(self, *a, **k): return self
+    def item(self, *a): return self
+    def squeeze(self, *a, **k): return self
+    def copy(self, *a, **k): return self
+    ndim = 0
+    shape = ()
+    size = 1
+
 
 def is_sym(x):
     return isinstance(x, SVal)
